@@ -181,6 +181,20 @@ Theorem C03_generated_legacy_mergeOrderings_eq_model : forall l fuel g x,
 Proof. intros. split; [apply gen_legacy_mergeOrderings_eq|apply gen_legacy_ro_eq]. Qed.
 Print Assumptions C03_generated_legacy_mergeOrderings_eq_model.
 
+(* _legacy_flatten + _legacy_mergeOrderings = the legacy order of the model, for every well-formed
+   hierarchy: the non-strict fallback branch and use_legacy_ro are tied to the source text too.
+   (n: loop fuel of the generated work-list, anything above the length of the flattening) *)
+Theorem C03_generated_legacy_ro_eq_model : forall rk g x fuel n,
+  wfb rk g = true -> rk x < fuel -> length (legacy_flatten fuel g x) < n ->
+  gen_legacy_flatten n (bases g) x = Some (legacy_flatten fuel g x) /\
+  gen_legacy_ro_of n (bases g) x = Some (legacy_ro fuel g x).
+Proof.
+  intros rk g x fuel n W H L. split.
+  - apply (gen_legacy_flatten_eq g rk (wfb_wf _ _ W)); auto.
+  - apply (gen_legacy_ro_of_eq g rk (wfb_wf _ _ W)); auto.
+Qed.
+Print Assumptions C03_generated_legacy_ro_eq_model.
+
 (* C3._merge (with _choose_next_base, both _guess_next_base and the _UseLegacyRO handler) *)
 Theorem C03_generated_merge_eq_model : forall strict legacy tree,
   gen_merge (S (total_len (filter nonempty tree))) strict legacy tree =
@@ -341,5 +355,10 @@ Example ex_generated : gen_can_choose_base 1 [[1; 0]; [2; 1; 0]; [1; 2]] = false
 Proof.
   repeat (split; [vm_compute; reflexivity|]). repeat constructor; discriminate.
 Qed.
+Example ex_generated_legacy : gen_legacy_flatten 8 (bases g_diamond) 4 = Some [4; 2; 1; 0; 3; 1; 0]
+  /\ gen_legacy_ro_of 8 (bases g_diamond) 4 = Some [4; 2; 3; 1; 0]
+  /\ legacy_flatten 5 g_diamond 4 = [4; 2; 1; 0; 3; 1; 0]
+  /\ gen_legacy_ro_of 8 (bases g_bad) 3 = Some [3; 2; 1; 0].
+Proof. vm_compute. repeat split; reflexivity. Qed.
 Example ex_iro : iro_of (fun y => Nat.even y) [4; 3; 2; 1; 0] = [4; 2; 0].
 Proof. reflexivity. Qed.
